@@ -91,25 +91,28 @@ func NewWordList(list []string) (*WordList, error) {
 	// remove the Capitalized one from the list
 	//
 	// This pass also assumes that everything in unique is "true"
-	unCapable := 0
 	for w := range unique {
 		if unique[w] { // it may have been deleted since range was computed
 			cap := strings.Title(w)
 			if unique[cap] {
 				if cap != w { // w is "polish"
 					delete(unique, cap) // delete won't change what is in range
-				} else {
-					unCapable++
 				}
 			}
 		}
 	}
 
 	// third pass, because life sucks
+	// Words that do not change when capitalized are counted here, after the
+	// deletions above, so that a "Polish" that gets removed is never counted
+	// (whether it was would otherwise depend on map iteration order).
+	unCapable := 0
 	var ourWords []string
 	for w := range unique {
 		ourWords = append(ourWords, w)
-
+		if strings.Title(w) == w {
+			unCapable++
+		}
 	}
 
 	if len(list) > len(ourWords) {
